@@ -467,6 +467,158 @@ def _hooks_setup(rng, levels):
     return {k: v for k, v in hooks.items() if v[0] or v[1]}
 
 
+# ------------------------------------------------------------------------------------------------- self-contained case records
+# Every finding's `case` carries, next to the one-line configuration head, a record from which the ECU and the scanner run are rebuilt
+# deterministically by `replay`: the seed and constructor arguments of the table ECU generator plus every behaviour switch / table entry that
+# differs from the freshly generated ECU (or the seed of the RandomUDSServer), and the scanner configuration incl. the client's max_retry.
+
+class Head(str):
+    """the configuration head (a str) with the record of its case attached"""
+    rec = None
+
+
+def _rec(head):
+    r = getattr(head, "rec", None)
+    return {"replay": r} if r is not None else {}
+
+
+_SWITCHES = ["f186", "drop_after", "drop_sids", "refuse", "fake_reentry", "pending", "pending_ks", "busy", "busy_sids", "reset_mode", "reset_levels",
+             "boot", "f186_then", "f186_nondefault", "f186_unreadable"]
+
+
+def _mk_table(seed, wild, flat, n_sessions):
+    import random as _random
+    ecu = TableEcu(_random.Random(seed), wild=wild, flat=flat, n_sessions=n_sessions)
+    ecu.gen = {"seed": seed, "wild": wild, "flat": flat, "n_sessions": n_sessions}
+    return ecu
+
+
+def _jsonable(v):
+    if isinstance(v, (set, frozenset)):
+        return sorted(v)
+    if isinstance(v, dict):
+        return {str(k): _jsonable(x) for k, x in v.items()}
+    if isinstance(v, (tuple, list)):
+        return [_jsonable(x) for x in v]
+    if isinstance(v, bytes):
+        return v.hex()
+    return v
+
+
+def _ecu_desc(ecu):
+    """what `_ecu_from_desc` needs to rebuild this ECU as it is now (taken before the run: the run itself changes refuse / f186 / session)"""
+    if not isinstance(ecu, TableEcu):
+        return {"kind": "RandomUDSServer", "seed": ecu.seed}
+    g = ecu.gen
+    fresh = _mk_table(g["seed"], g["wild"], g["flat"], g["n_sessions"])
+    sw = {a: _jsonable(getattr(ecu, a)) for a in _SWITCHES if getattr(ecu, a) != getattr(fresh, a)}
+    svc = {}
+    for s_, d in ecu.svc.items():
+        diff = {str(sid): list(ent) for sid, ent in d.items() if fresh.svc.get(s_, {}).get(sid) != ent}
+        if diff:
+            svc[str(s_)] = diff
+    return {"kind": "table", **g, "set": sw, "svc_set": svc}
+
+
+def _ecu_from_desc(d):
+    """-> (ecufn for the wire transport, TableEcu | None, RandomUDSServer | None)"""
+    if d["kind"] == "RandomUDSServer":
+        srv, fn = _random_server_seeded(d["seed"])
+        return fn, None, srv
+    ecu = _mk_table(d["seed"], d["wild"], d["flat"], d["n_sessions"])
+    for a, v in d.get("set", {}).items():
+        if a in ("drop_sids", "busy_sids", "reset_levels"):
+            v = set(v)
+        elif a == "f186_unreadable":
+            v = {int(k): x for k, x in v.items()}
+        elif a == "f186_then" and v is not None:
+            v = tuple(v)
+        setattr(ecu, a, v)
+    for s_, ents in d.get("svc_set", {}).items():
+        for sid, ent in ents.items():
+            ecu.svc[int(s_)][int(sid)] = tuple(ent)
+    return ecu, ecu, None
+
+
+def _describe_ecu(d):
+    if d["kind"] == "RandomUDSServer":
+        return f"the real RandomUDSServer(seed {d['seed']}) behind UDSServerTransport.handle_request"
+    sw = ", ".join(f"{k}={v}" for k, v in d.get("set", {}).items()) or "none"
+    return (f"table ECU generated from seed {d['seed']} (wild={d['wild']}, flat={d['flat']}, n_sessions={d['n_sessions']}); behaviour switches: {sw}"
+            + (f"; service table entries set: {d['svc_set']}" if d.get("svc_set") else ""))
+
+
+def _skip_from_json(v):
+    if isinstance(v, dict):
+        return {int(k): x for k, x in v.items()}
+    return v
+
+
+def _hooks_from_json(h):
+    return {int(k): (tuple(bytes.fromhex(x) for x in v[0]), tuple(bytes.fromhex(x) for x in v[1])) for k, v in (h or {}).items()}
+
+
+def _svc_head(P):
+    return (f"svc {_fmt_sessions(P['sessions'])} {int(P['check'])} {int(P['rid'])} {_fmt_skip(P['skip'])} "
+            f"{P['reset'] if P['reset'] is not None else 'none'} {_fmt_hooks(P['hooks'])}")
+
+
+def _run_svc(ecu, P):
+    """one service scan: P = sessions, skip (what the skip expression denotes), skip_arg (what is handed to the config: None = the map itself, or
+    CLI tokens), check, rid, reset, hooks, max_retry, label -> (run, head with the case record attached, impl summary)"""
+    from gallia.commands.scan.uds.services import ServicesScanner, ServicesScannerConfig
+    rec = {"scanner": "svc", **{k: _jsonable(P[k]) for k in ("sessions", "skip", "skip_arg", "check", "rid", "reset", "hooks", "max_retry", "label")},
+           "ecu": _ecu_desc(ecu)}
+    cfg = ServicesScannerConfig(target="tcp-lines://127.0.0.1:1", sessions=P["sessions"], skip=P["skip"] if P["skip_arg"] is None else P["skip_arg"],
+                                check_session=P["check"], scan_response_ids=P["rid"], reset=P["reset"], db=None)
+    r = _run_scanner(ServicesScanner, cfg, ecu, hooks=P["hooks"], max_retry=P["max_retry"])
+    head = Head(_svc_head(P))
+    head.rec = rec
+    return r, head, _svc_summary(r)
+
+
+def _id_head(P):
+    return (f"id {_fmt_sessions(P['sessions'])} {P['start']} {P['end']} {P['payload'].hex() if P['payload'] else '-'} {P['service']} "
+            f"{P['check'] if P['check'] is not None else 'none'} {_fmt_skip(P['skip'])} {int(P['sns'])} {P['max_retry']} {_fmt_hooks(P['hooks'])}")
+
+
+def _run_id(ecu, P):
+    """one identifier scan: P = sessions, start, end, payload, service, check, skip, skip_arg, sns, max_retry, hooks, label
+    -> (run, head with the case record attached, counts, impl summary)"""
+    import gallia.commands.scan.uds.identifiers as idmod
+    from gallia.commands.scan.uds.identifiers import ScanIdentifiers, ScanIdentifiersConfig
+    from gallia.services.uds.core.constants import UDSIsoServices
+    rec = {"scanner": "id", **{k: _jsonable(P[k]) for k in ("sessions", "start", "end", "payload", "service", "check", "skip", "skip_arg", "sns",
+                                                            "max_retry", "hooks", "label")}, "ecu": _ecu_desc(ecu)}
+    captured = []
+    idmod.logger.result = lambda msg, *a, **k: captured.append(str(msg))
+    idmod.logger.notice = lambda *a, **k: None
+    cfg = ScanIdentifiersConfig(target="tcp-lines://127.0.0.1:1", sessions=P["sessions"], start=P["start"], end=P["end"],
+                                payload=P["payload"], service=UDSIsoServices(P["service"]), check_session=P["check"], skip=P["skip_arg"],
+                                skip_not_supported=P["sns"], db=None, power_cycle_sleep=0)
+    r = _run_scanner(ScanIdentifiers, cfg, ecu, hooks=P["hooks"], max_retry=P["max_retry"])
+    head = Head(_id_head(P))
+    head.rec = rec
+    counts = _parse_counts(captured)
+    return r, head, counts, _id_summary(r, counts)
+
+
+def _compare_model(ctx, cases):
+    """cases: (driver line, impl summary, info) -> canonical model outputs; differences recorded as tie-level findings"""
+    out = ctx.lean([c[0] for c in cases])
+    res = []
+    for (line, impl, info), mo in zip(cases, out):
+        mo_c = _canon_model(mo)
+        res.append(mo_c)
+        if mo_c != impl:
+            kind = info["kind"]
+            what = _first_diff(impl, mo_c)
+            ctx.disagree(f"{kind}:model-vs-code:{what}", f"{kind} scan: model and implementation differ ({what}) on ECU kind {info['ecu']}",
+                         {"line": line[:4000], "info": info}, impl=impl[:3000], model=mo_c[:3000], spec_violated=False,
+                         site="ServicesScanner.main" if kind == "svc" else "ScanIdentifiers.main")
+    return res
+
+
 def run(ctx):
     setup_repo_import()
     import gallia.command  # noqa: F401  (import order)
@@ -485,17 +637,14 @@ def run(ctx):
     cases = []  # (line for lean, impl summary string, info)
 
     def svc_case(ecu, sessions, skip, check, rid, reset, hooks, label, skip_arg=None):
-        cfg = ServicesScannerConfig(target="tcp-lines://127.0.0.1:1", sessions=sessions, skip=skip if skip_arg is None else skip_arg,
-                                    check_session=check, scan_response_ids=rid, reset=reset, db=None)
-        r = _run_scanner(ServicesScanner, cfg, ecu, hooks=hooks, max_retry=rng.choice([0, 1, 3]))
+        P = {"sessions": sessions, "skip": skip, "skip_arg": skip_arg, "check": check, "rid": rid, "reset": reset, "hooks": hooks,
+             "max_retry": rng.choice([0, 1, 3]), "label": label}
+        r, head, impl = _run_svc(ecu, P)
         ctx.ev()
-        head = (f"svc {_fmt_sessions(sessions)} {int(check)} {int(rid)} {_fmt_skip(skip)} "
-                f"{reset if reset is not None else 'none'} {_fmt_hooks(hooks)}")
-        impl = _svc_summary(r)
         for p in r["problems"]:
             ctx.disagree("svc:wire-accounting", "transmissions and exchanges of the real client do not line up: " + p,
-                         {"cfg": head}, impl=p, spec_violated=False, site="UDSClient.request_unsafe")
-        cases.append((head + " | " + _tokens(r), impl, {"kind": "svc", "cfg": head, "ecu": label, "trace_len": len(r["wire"])}))
+                         {**_rec(head), "cfg": head}, impl=p, spec_violated=False, site="UDSClient.request_unsafe")
+        cases.append((head + " | " + _tokens(r), impl, {"kind": "svc", "cfg": head, "ecu": label, "trace_len": len(r["wire"]), **_rec(head)}))
         ctx.nontrivial((head, _tokens(r)))
         return r, head, impl
 
@@ -510,7 +659,7 @@ def run(ctx):
         ecu_seed = rng.randrange(1 << 60)
         flat = rng.random() < 0.4 or forced is not None
         n_sess = None if forced is None else rng.randint(2, 3)
-        ecu = TableEcu(_random.Random(ecu_seed), wild=wild, flat=flat, n_sessions=n_sess)
+        ecu = _mk_table(ecu_seed, wild, flat, n_sess)
         use_sessions = rng.random() < 0.8 or forced is not None
         sessions = None
         if use_sessions:
@@ -590,29 +739,11 @@ def run(ctx):
             ctx.kind("svc:outcome:" + r["outcome"].split()[1])
         if r["aborts"]:
             ctx.kind("svc:session-check-failed")
-        inert_run = not wild and label in ("plain", "pending")
-        # --- spec verdict on the ground truth (conformant ECUs, run completed) ---
-        if inert_run and r["outcome"] in ("exit0", "exit1"):
-            _svc_spec(ctx, ecu, sessions, skip, check, rid, reset, r, head)
-        elif inert_run and not _may_die(ecu, reset, r):
-            ctx.disagree("svc:scan-died:" + r["outcome"].split()[-1], f"service scan ended with {r['outcome']} on a conformant ECU (session read mode {ecu.f186}); nothing is reported",
-                         {"cfg": head, "f186": ecu.f186}, impl=r["outcome"], spec_violated=True, site="ServicesScanner.main / ECU.check_and_set_session")
-        if not wild and label in ("drop-sid", "refuse", "drop-count") and r["outcome"] in ("exit0", "exit1"):
-            _svc_checked_spec(ctx, ecu, sessions, skip, check, rid, r, head)
-        if r["outcome"] in ("exit0", "exit1", "raised MissingResponse", "raised IllegalResponse",
-                            "raised UnexpectedNegativeResponse", "raised RuntimeError"):
-            _svc_wire_spec(ctx, ecu, sessions, skip, rid, reset, hooks, r, head)
-        if not rid:
-            for (k_, sid_) in sc.result:
-                if sid_ & 0x40:
-                    ctx.disagree("svc:response-id-reported-unasked", f"service id {sid_:#x} carries the response flag (bit 0x40) and --scan-response-ids is off, "
-                                 f"yet it is reported (session key {k_:#x})", {"cfg": head, "sid": sid_, "session": k_}, impl=sc.result,
-                                 spec_violated=True, site="ServicesScanner.perform_scan (response id filter)")
-                    break
+        inert_run = _svc_verdicts(ctx, ecu, sessions, skip, check, rid, reset, hooks, wild, label, r, head)
         # --- metamorphic pairs on conformant, stable ECUs ---
         if inert_run and use_sessions and r["outcome"] in ("exit0", "exit1") and i % 3 == 0:
             def twin():
-                e2 = TableEcu(_random.Random(ecu_seed), wild=False, flat=flat, n_sessions=n_sess)
+                e2 = _mk_table(ecu_seed, False, flat, n_sess)
                 e2.f186 = ecu.f186
                 e2.busy_sids = set(ecu.busy_sids)
                 e2.f186_unreadable = dict(ecu.f186_unreadable)
@@ -627,11 +758,7 @@ def run(ctx):
                     e2.reset_mode, e2.reset_levels, e2.boot = rng.choice(["ok", "neg", "silent"]), {1}, rng.choice([[], ["t"] * 2, ["i"]])
                 r2, head2, _ = svc_case(e2, sessions, skip, check, rid, lvl2, hooks, "table:twin-reset", skip_arg)
                 ctx.kind("svc:pair:reset-on/off")
-                if r2["outcome"] in ("exit0", "exit1") and ecu.reset_mode not in ("garbage",) and sorted(r2["scanner"].result) != base:
-                    ctx.disagree("svc:reset-changes-reported-set", "the same ECU and configuration with and without --reset give different reported sets "
-                                 "although every session can be entered from every session",
-                                 {"cfg": head, "cfg2": head2}, impl=sorted(r2["scanner"].result), model=base, spec_violated=True,
-                                 site="ServicesScanner.main (--reset)")
+                _pair_verdict(ctx, "reset", ecu.reset_mode, label, r, r2, head, head2)
             if ecu.f186 in ("ok", "nrc31", "nrc11", "nrc7f", "nrc12", "nrc7e", "silent"):
                 # check-session on/off: a session-stable ECU with an honest (or unsupported) read-back gives the same result
                 e2 = twin()
@@ -640,12 +767,7 @@ def run(ctx):
                     pass
                 r2, head2, _ = svc_case(e2, sessions, skip, not check, rid, reset, hooks, "table:twin-check", skip_arg)
                 ctx.kind("svc:pair:check-on/off")
-                if label == "plain" and r2["outcome"] in ("exit0", "exit1") and \
-                        (sorted(r2["scanner"].result), r2["outcome"]) != (base, r["outcome"]):
-                    ctx.disagree("svc:check-session-changes-result", "a session-stable ECU with an honest session read-back is reported differently "
-                                 "with and without --check-session",
-                                 {"cfg": head, "cfg2": head2}, impl=[sorted(r2["scanner"].result), r2["outcome"]], model=[base, r["outcome"]],
-                                 spec_violated=True, site="ServicesScanner.perform_scan / ECU.check_and_set_session")
+                _pair_verdict(ctx, "check", ecu.reset_mode, label, r, r2, head, head2)
             if label == "plain":
                 # ResponsePending in front of every reply changes nothing (fewer than MAX_N_PENDING frames)
                 e2 = twin()
@@ -653,11 +775,7 @@ def run(ctx):
                 e2.pending, e2.pending_ks = 1.0, [1, 2, 3, 119]
                 r2, head2, _ = svc_case(e2, sessions, skip, check, rid, reset, hooks, "table:twin-pending", skip_arg)
                 ctx.kind("svc:pair:pending-on/off")
-                if (sorted(r2["scanner"].result), r2["outcome"], r2["wire"]) != (base, r["outcome"], r["wire"]):
-                    ctx.disagree("svc:response-pending-changes-scan", "ResponsePending frames in front of the same replies change the scan "
-                                 "(result, exit status or the requests on the wire)",
-                                 {"cfg": head}, impl=[sorted(r2["scanner"].result), r2["outcome"], len(r2["wire"])],
-                                 model=[base, r["outcome"], len(r["wire"])], spec_violated=True, site="UDSClient.request_unsafe / ServicesScanner")
+                _pair_verdict(ctx, "pending", ecu.reset_mode, label, r, r2, head, head2)
         if i < 2:
             ctx.sample({"case": head, "ecu_sessions": ecu.sessions, "result": sc.result, "outcome": r["outcome"],
                         "transmissions": len(r["wire"])})
@@ -672,27 +790,18 @@ def run(ctx):
         reset = rng.choice([None, 1, 1, 2]) if sessions is not None else None
         r, head, impl = svc_case(fn, sessions, {}, check, rid, reset, {}, "RandomUDSServer")
         ctx.kind("svc:RandomUDSServer" + (":check" if check else "") + (":reset" if reset is not None else ""))
-        _svc_wire_spec(ctx, None, sessions, {}, rid, reset, {}, r, head)
-        # soundness against the server's own service table
-        if r["outcome"] in ("exit0", "exit1"):
-            for (sess, sid) in r["scanner"].result:
-                eff = sess if sessions is not None else 1
-                if sid not in srv.services.get(eff, {}):
-                    ctx.disagree("svc:reported-unsupported:RandomUDSServer", f"service scan reports sid {sid:#x} in session {eff:#x} which the server does not implement there",
-                                 {"cfg": head}, impl=r["scanner"].result, spec_violated=True, site="ServicesScanner.perform_scan")
+        _svc_rs_verdicts(ctx, srv, sessions, rid, reset, r, head)
 
     # ------------------------------------------------------------------ identifier scan
-    captured = []
-    idmod.logger.result = lambda msg, *a, **k: captured.append(str(msg))
-    idmod.logger.notice = lambda *a, **k: None
     n_id = ctx.pick(360, 2000)
     id_modes = ["plain", "plain", "plain", "drop-count", "refuse", "pending", "busy", "drop-sid"]
     n_id_forced = ctx.pick(24, 80)
     for i in range(n_id):
         forced = i % 4 if i < n_id_forced else None   # combinations in which the session check has work to do
         wild = rng.random() < 0.3 and forced is None
-        ecu = TableEcu(_random.Random(rng.randrange(1 << 60)), wild=wild, flat=rng.random() < 0.3 or forced is not None,
-                       n_sessions=None if forced is None else rng.randint(1, 3))
+        id_seed = rng.randrange(1 << 60)
+        id_flat = rng.random() < 0.3 or forced is not None
+        ecu = _mk_table(id_seed, wild, id_flat, None if forced is None else rng.randint(1, 3))
         service = rng.choice([0x22, 0x27, 0x2E, 0x31])
         # make the service available in most sessions so that something is counted
         for s in ecu.sessions:
@@ -738,34 +847,21 @@ def run(ctx):
             skip_arg = _skip_tokens(rng, skip)
             skip = _oracle_2d(skip_arg)
             ctx.kind("skip:as-text")
-        cfg = ScanIdentifiersConfig(target="tcp-lines://127.0.0.1:1", sessions=sessions, start=start, end=end,
-                                    payload=payload, service=UDSIsoServices(service), check_session=check, skip=skip_arg,
-                                    skip_not_supported=sns, db=None, power_cycle_sleep=0)
-        captured.clear()
-        r = _run_scanner(ScanIdentifiers, cfg, ecu, hooks=hooks, max_retry=dflt)
+        ecu_label = ("wild" if wild else "table") + ":" + label
+        P = {"sessions": sessions, "start": start, "end": end, "payload": payload, "service": service, "check": check, "skip": skip, "skip_arg": skip_arg,
+             "sns": sns, "max_retry": dflt, "hooks": hooks, "label": ecu_label}
+        r, head, counts, impl = _run_id(ecu, P)
         ctx.ev()
         ctx.kind(f"id:{service:#x}:" + ("wild" if wild else "conformant") + ":" + label + (":sessions" if use_sessions else ":current")
                  + (":check" if check else "") + (":hooks" if hooks else ""))
-        head = (f"id {_fmt_sessions(sessions)} {start} {end} {payload.hex() if payload else '-'} {service} "
-                f"{check if check is not None else 'none'} {_fmt_skip(skip)} {int(sns)} {dflt} {_fmt_hooks(hooks)}")
-        counts = _parse_counts(captured)
-        impl = _id_summary(r, counts)
         for p in r["problems"]:
             ctx.disagree("id:wire-accounting", "transmissions and exchanges of the real client do not line up: " + p,
-                         {"cfg": head}, impl=p, spec_violated=False, site="UDSClient.request_unsafe")
-        cases.append((head + " | " + _tokens(r), impl, {"kind": "id", "cfg": head, "ecu": ("wild" if wild else "table") + ":" + label}))
+                         {**_rec(head), "cfg": head}, impl=p, spec_violated=False, site="UDSClient.request_unsafe")
+        cases.append((head + " | " + _tokens(r), impl, {"kind": "id", "cfg": head, "ecu": ecu_label, **_rec(head)}))
         ctx.nontrivial((head, _tokens(r)))
         if r["outcome"].startswith("raised"):
             ctx.kind("id:outcome:" + r["outcome"].split()[1])
-        # spec verdict: positives counted == positive replies the ECU really gave to the identifier probes
-        if r["outcome"] in ("exit0", "exit1"):
-            _id_spec(ctx, service, payload, r, counts, head)
-            _id_skip_wire(ctx, service, sessions, skip, r, head)
-        elif not wild and label in ("plain",) and ecu.reset_mode not in ("silent", "garbage") and not hooks:
-            ctx.disagree("id:scan-died:" + r["outcome"].split()[-1], f"identifier scan ended with {r['outcome']} on a conformant ECU (session read mode {ecu.f186}); nothing is counted",
-                         {"cfg": head, "f186": ecu.f186}, impl=r["outcome"], spec_violated=True, site="ScanIdentifiers.main / ECU.check_and_set_session")
-        if not wild and label == "drop-sid" and check == 1 and service != 0x22 and ecu.f186 == "ok" and r["outcome"] in ("exit0", "exit1") and sessions is not None:
-            _id_checked_spec(ctx, ecu, service, r, head)
+        _id_verdicts(ctx, ecu, P, wild, label, r, counts, head)
         if i < 2:
             ctx.sample({"case": head, "counts": counts, "outcome": r["outcome"], "transmissions": len(r["wire"])})
 
@@ -778,32 +874,96 @@ def run(ctx):
         start = rng.choice([0, 1, 0xF180])
         end = start + rng.choice([3, 16, 40])
         check = rng.choice([None, 1, 4]) if sessions is not None else None
-        cfg = ScanIdentifiersConfig(target="tcp-lines://127.0.0.1:1", sessions=sessions, start=start, end=end, payload=None,
-                                    service=UDSIsoServices(service), check_session=check, skip={}, skip_not_supported=False,
-                                    db=None, power_cycle_sleep=0)
-        captured.clear()
-        r = _run_scanner(ScanIdentifiers, cfg, fn, max_retry=3)
+        P = {"sessions": sessions, "start": start, "end": end, "payload": None, "service": service, "check": check, "skip": {}, "skip_arg": {},
+             "sns": False, "max_retry": 3, "hooks": {}, "label": "RandomUDSServer"}
+        r, head, counts, impl = _run_id(fn, P)
         ctx.ev()
         ctx.kind(f"id:{service:#x}:RandomUDSServer")
-        head = f"id {_fmt_sessions(sessions)} {start} {end} - {service} {check if check is not None else 'none'} - 0 3 -"
-        counts = _parse_counts(captured)
-        cases.append((head + " | " + _tokens(r), _id_summary(r, counts), {"kind": "id", "cfg": head, "ecu": "RandomUDSServer"}))
+        cases.append((head + " | " + _tokens(r), impl, {"kind": "id", "cfg": head, "ecu": "RandomUDSServer", **_rec(head)}))
         ctx.nontrivial((head, _tokens(r)))
         if r["outcome"] in ("exit0", "exit1"):
             _id_spec(ctx, service, None, r, counts, head)
 
     # ------------------------------------------------------------------ model side
-    out = ctx.lean([c[0] for c in cases])
-    for (line, impl, info), mo in zip(cases, out):
-        mo_c = _canon_model(mo)
-        if mo_c != impl:
-            kind = info["kind"]
-            what = _first_diff(impl, mo_c)
-            ctx.disagree(f"{kind}:model-vs-code:{what}", f"{kind} scan: model and implementation differ ({what}) on ECU kind {info['ecu']}",
-                         {"line": line[:4000], "info": info}, impl=impl[:3000], model=mo_c[:3000], spec_violated=False,
-                         site="ServicesScanner.main" if kind == "svc" else "ScanIdentifiers.main")
+    _compare_model(ctx, cases)
     ctx.traces_validated += len(cases)
     ctx.notes["transmissions_compared"] = sum(len(c[0].split("|")[1].split()) for c in cases)
+
+
+def _svc_verdicts(ctx, ecu, sessions, skip, check, rid, reset, hooks, wild, label, r, head):
+    """the property's clauses for one service scan on a table ECU (ground truth: the ECU's tables and its request log) -> inert_run"""
+    sc = r["scanner"]
+    inert_run = not wild and label in ("plain", "pending")
+    # --- spec verdict on the ground truth (conformant ECUs, run completed) ---
+    if inert_run and r["outcome"] in ("exit0", "exit1"):
+        _svc_spec(ctx, ecu, sessions, skip, check, rid, reset, r, head)
+    elif inert_run and not _may_die(ecu, reset, r):
+        ctx.disagree("svc:scan-died:" + r["outcome"].split()[-1], f"service scan ended with {r['outcome']} on a conformant ECU (session read mode {ecu.f186}); nothing is reported",
+                     {**_rec(head), "cfg": head, "f186": ecu.f186}, impl=r["outcome"], spec_violated=True, site="ServicesScanner.main / ECU.check_and_set_session")
+    if not wild and label in ("drop-sid", "refuse", "drop-count") and r["outcome"] in ("exit0", "exit1"):
+        _svc_checked_spec(ctx, ecu, sessions, skip, check, rid, r, head)
+    if r["outcome"] in ("exit0", "exit1", "raised MissingResponse", "raised IllegalResponse",
+                        "raised UnexpectedNegativeResponse", "raised RuntimeError"):
+        _svc_wire_spec(ctx, ecu, sessions, skip, rid, reset, hooks, r, head)
+    if not rid:
+        for (k_, sid_) in sc.result:
+            if sid_ & 0x40:
+                ctx.disagree("svc:response-id-reported-unasked", f"service id {sid_:#x} carries the response flag (bit 0x40) and --scan-response-ids is off, "
+                             f"yet it is reported (session key {k_:#x})", {**_rec(head), "cfg": head, "sid": sid_, "session": k_}, impl=sc.result,
+                             spec_violated=True, site="ServicesScanner.perform_scan (response id filter)")
+                break
+    return inert_run
+
+
+def _svc_rs_verdicts(ctx, srv, sessions, rid, reset, r, head):
+    """service scan against the real RandomUDSServer: what may be on the wire, and soundness against the server's own service table"""
+    _svc_wire_spec(ctx, None, sessions, {}, rid, reset, {}, r, head)
+    if r["outcome"] in ("exit0", "exit1"):
+        for (sess, sid) in r["scanner"].result:
+            eff = sess if sessions is not None else 1
+            if sid not in srv.services.get(eff, {}):
+                ctx.disagree("svc:reported-unsupported:RandomUDSServer", f"service scan reports sid {sid:#x} in session {eff:#x} which the server does not implement there",
+                             {**_rec(head), "cfg": head}, impl=r["scanner"].result, spec_violated=True, site="ServicesScanner.perform_scan")
+
+
+def _pair_verdict(ctx, kind, reset_mode, label, r, r2, head, head2):
+    """metamorphic pairs on a conformant, session-stable table ECU: (r, head) the run as generated, (r2, head2) its twin with --reset /
+    --check-session / ResponsePending frames toggled; both records travel with the finding"""
+    base = sorted(r["scanner"].result)
+    case = {**_rec(head), "cfg": head, "cfg2": head2, "pair": kind, "replay2": getattr(head2, "rec", None)}
+    if kind == "reset":
+        if r2["outcome"] in ("exit0", "exit1") and reset_mode not in ("garbage",) and sorted(r2["scanner"].result) != base:
+            ctx.disagree("svc:reset-changes-reported-set", "the same ECU and configuration with and without --reset give different reported sets "
+                         "although every session can be entered from every session",
+                         case, impl=sorted(r2["scanner"].result), model=base, spec_violated=True,
+                         site="ServicesScanner.main (--reset)")
+    elif kind == "check":
+        if label == "plain" and r2["outcome"] in ("exit0", "exit1") and \
+                (sorted(r2["scanner"].result), r2["outcome"]) != (base, r["outcome"]):
+            ctx.disagree("svc:check-session-changes-result", "a session-stable ECU with an honest session read-back is reported differently "
+                         "with and without --check-session",
+                         case, impl=[sorted(r2["scanner"].result), r2["outcome"]], model=[base, r["outcome"]],
+                         spec_violated=True, site="ServicesScanner.perform_scan / ECU.check_and_set_session")
+    elif kind == "pending":
+        if (sorted(r2["scanner"].result), r2["outcome"], r2["wire"]) != (base, r["outcome"], r["wire"]):
+            ctx.disagree("svc:response-pending-changes-scan", "ResponsePending frames in front of the same replies change the scan "
+                         "(result, exit status or the requests on the wire)",
+                         case, impl=[sorted(r2["scanner"].result), r2["outcome"], len(r2["wire"])],
+                         model=[base, r["outcome"], len(r["wire"])], spec_violated=True, site="UDSClient.request_unsafe / ServicesScanner")
+
+
+def _id_verdicts(ctx, ecu, P, wild, label, r, counts, head):
+    """the property's clauses for one identifier scan on a table ECU"""
+    service, sessions, skip, check, hooks = P["service"], P["sessions"], P["skip"], P["check"], P["hooks"]
+    # spec verdict: positives counted == positive replies the ECU really gave to the identifier probes
+    if r["outcome"] in ("exit0", "exit1"):
+        _id_spec(ctx, service, P["payload"], r, counts, head)
+        _id_skip_wire(ctx, service, sessions, skip, r, head)
+    elif not wild and label in ("plain",) and ecu.reset_mode not in ("silent", "garbage") and not hooks:
+        ctx.disagree("id:scan-died:" + r["outcome"].split()[-1], f"identifier scan ended with {r['outcome']} on a conformant ECU (session read mode {ecu.f186}); nothing is counted",
+                     {**_rec(head), "cfg": head, "f186": ecu.f186}, impl=r["outcome"], spec_violated=True, site="ScanIdentifiers.main / ECU.check_and_set_session")
+    if not wild and label == "drop-sid" and check == 1 and service != 0x22 and ecu.f186 == "ok" and r["outcome"] in ("exit0", "exit1") and sessions is not None:
+        _id_checked_spec(ctx, ecu, service, r, head)
 
 
 def _may_die(ecu, reset, r):
@@ -908,7 +1068,7 @@ def _svc_spec(ctx, ecu, sessions, skip, check, rid, reset, r, head):
             if sessions is not None and key in skip and (skip[key] is None or sid in skip[key]):
                 if (key, sid) in got:
                     ctx.disagree("svc:skipped-sid-reported", "service scan reports a service id the skip option names",
-                                 {"cfg": head, "sid": sid}, impl=sorted(got), spec_violated=True, site="ServicesScanner.perform_scan")
+                                 {**_rec(head), "cfg": head, "sid": sid}, impl=sorted(got), spec_violated=True, site="ServicesScanner.perform_scan")
                 continue
             sup = ecu.supports(real, sid)
             ent = ecu.svc.get(real, {}).get(sid)
@@ -922,13 +1082,13 @@ def _svc_spec(ctx, ecu, sessions, skip, check, rid, reset, r, head):
                 meaningful = any(l >= minlen for l in (1, 2, 3, 5))
             if (key, sid) in got and not sup:
                 ctx.disagree("svc:reported-unsupported", f"service scan reports sid {sid:#x} in session {real:#x}, which the ECU does not implement there",
-                             {"cfg": head, "sid": sid, "session": real}, impl=sorted(got), spec_violated=True, site="ServicesScanner.perform_scan")
+                             {**_rec(head), "cfg": head, "sid": sid, "session": real}, impl=sorted(got), spec_violated=True, site="ServicesScanner.perform_scan")
             if sup and meaningful:
                 expected.add((key, sid))
     for (key, sid) in got:
         if key not in [k for k, _ in probed_sessions]:
             ctx.disagree("svc:reported-under-session-not-entered", f"service scan reports sid {sid:#x} under session {key:#x}, which the ECU never let it enter",
-                         {"cfg": head, "sid": sid, "session": key}, impl=sorted(got), spec_violated=True, site="ServicesScanner.main")
+                         {**_rec(head), "cfg": head, "sid": sid, "session": key}, impl=sorted(got), spec_violated=True, site="ServicesScanner.main")
     missing = expected - got
     storm = ecu.pending and max(ecu.pending_ks) >= 120
     # a hook request that is not answered makes set_session raise: the session is skipped by design
@@ -936,10 +1096,10 @@ def _svc_spec(ctx, ecu, sessions, skip, check, rid, reset, r, head):
     if missing and not aborted and not storm and not hook_failed:
         k, sid = sorted(missing)[0]
         ctx.disagree("svc:implemented-service-not-reported", f"service scan misses sid {sid:#x} (session key {k:#x}) although the ECU answers a probe meaningfully",
-                     {"cfg": head, "missing": sorted(missing)[:10]}, impl=sorted(got), spec_violated=True, site="ServicesScanner.perform_scan")
+                     {**_rec(head), "cfg": head, "missing": sorted(missing)[:10]}, impl=sorted(got), spec_violated=True, site="ServicesScanner.perform_scan")
     if aborted and ecu.f186 != "stuck1":
         ctx.disagree("svc:session-check-failed-on-stable-ecu", "the session check gave up although the ECU never left the session and reads it back correctly",
-                     {"cfg": head, "aborts": r["aborts"]}, impl=r["aborts"], spec_violated=True, site="ECU.check_and_set_session")
+                     {**_rec(head), "cfg": head, "aborts": r["aborts"]}, impl=r["aborts"], spec_violated=True, site="ECU.check_and_set_session")
     # every probe was received by the ECU in the session it is reported under
     if sessions is not None and not hook_failed:
         key = None
@@ -950,7 +1110,7 @@ def _svc_spec(ctx, ecu, sessions, skip, check, rid, reset, r, head):
                 continue
             if key is not None and _is_probe(pdu) and pdu[0] != 0x3E and before != key:
                 ctx.disagree("svc:probe-outside-claimed-session", f"probe `{pdu.hex()}` of the scan of session {key:#x} reached the ECU in session {before:#x}",
-                             {"cfg": head, "session": key, "request": pdu.hex()}, impl=before, model=key, spec_violated=True,
+                             {**_rec(head), "cfg": head, "session": key, "request": pdu.hex()}, impl=before, model=key, spec_violated=True,
                              site="ServicesScanner.main / perform_scan")
                 break
 
@@ -984,18 +1144,18 @@ def _svc_wire_spec(ctx, ecu, sessions, skip, rid, reset, hooks, r, head):
     for pdu, tok in r["trace"]:
         if _is_probe(pdu) and (pdu[0] & 0x40) and not rid and pdu not in hookset:
             ctx.disagree("svc:response-id-probed-unasked", f"service id {pdu[0]:#x} carries the response flag (bit 0x40) and --scan-response-ids is off, "
-                         f"yet the probe `{pdu.hex()}` was sent", {"cfg": head, "request": pdu.hex()}, impl=_reqs(r["wire"])[:400],
+                         f"yet the probe `{pdu.hex()}` was sent", {**_rec(head), "cfg": head, "request": pdu.hex()}, impl=_reqs(r["wire"])[:400],
                          spec_violated=True, site="ServicesScanner.perform_scan (response id filter)")
             return
         if sessions is not None and len(pdu) == 2 and pdu[0] == 0x10 and pdu[1] != 0:
             if pdu[1] in skip and skip[pdu[1]] is None and pdu[1] != 1:
                 ctx.disagree("svc:skipped-session-requested", f"session {pdu[1]:#x} is skipped as a whole but `{pdu.hex()}` was sent",
-                             {"cfg": head, "request": pdu.hex()}, impl=_reqs(r["wire"])[:400], spec_violated=True,
+                             {**_rec(head), "cfg": head, "request": pdu.hex()}, impl=_reqs(r["wire"])[:400], spec_violated=True,
                              site="ServicesScanner.main / Ranges2D (unravel_2d)")
                 return
             if pdu[1] not in sessions:
                 ctx.disagree("svc:unrequested-session-requested", f"`{pdu.hex()}` was sent although session {pdu[1]:#x} is not in --sessions",
-                             {"cfg": head, "request": pdu.hex()}, impl=_reqs(r["wire"])[:400], spec_violated=True, site="ServicesScanner.main")
+                             {**_rec(head), "cfg": head, "request": pdu.hex()}, impl=_reqs(r["wire"])[:400], spec_violated=True, site="ServicesScanner.main")
                 return
             if tok.startswith("p"):
                 key = pdu[1]  # positive session change: set_session / check_and_set_session
@@ -1006,13 +1166,13 @@ def _svc_wire_spec(ctx, ecu, sessions, skip, rid, reset, hooks, r, head):
             continue
         if not (_is_probe(pdu) and (rid or not pdu[0] & 0x40)):
             ctx.disagree("svc:unexpected-request", f"`{pdu.hex()}` is neither a probe of a selected service id nor session maintenance",
-                         {"cfg": head, "request": pdu.hex()}, impl=_reqs(r["wire"])[:400], spec_violated=True, site="ServicesScanner")
+                         {**_rec(head), "cfg": head, "request": pdu.hex()}, impl=_reqs(r["wire"])[:400], spec_violated=True, site="ServicesScanner")
             return
         if key is None or key not in skip:
             continue
         if skip[key] is None or pdu[0] in skip[key]:
             ctx.disagree("svc:skipped-sid-requested", f"service id {pdu[0]:#x} is skipped in session {key:#x} but the probe `{pdu.hex()}` was sent there",
-                         {"cfg": head, "session": key, "request": pdu.hex()}, impl=_reqs(r["wire"])[:400], spec_violated=True,
+                         {**_rec(head), "cfg": head, "session": key, "request": pdu.hex()}, impl=_reqs(r["wire"])[:400], spec_violated=True,
                          site="ServicesScanner.perform_scan / Ranges2D (unravel_2d)")
             return
 
@@ -1028,7 +1188,7 @@ def _svc_checked_spec(ctx, ecu, sessions, skip, check, rid, r, head):
     got = set(sc.result)
     if r["aborts"] and r["outcome"] != "exit1":
         ctx.disagree("svc:failed-session-check-exit-status", "a session check failed but the scan ended with status 0",
-                     {"cfg": head, "aborts": r["aborts"]}, impl=r["outcome"], spec_violated=True, site="ServicesScanner.main")
+                     {**_rec(head), "cfg": head, "aborts": r["aborts"]}, impl=r["outcome"], spec_violated=True, site="ServicesScanner.main")
     # drops happen only in answer to requests of the listed service ids, and the read-back itself is not one of them
     trigger_free = ecu.drop_after is None and 0x22 not in ecu.drop_sids
     for (key, sid) in sorted(got):
@@ -1037,7 +1197,7 @@ def _svc_checked_spec(ctx, ecu, sessions, skip, check, rid, r, head):
         if trigger_free and sid not in ecu.drop_sids and not ecu.supports(key, sid):
             ctx.disagree("svc:checked-scan-reports-unsupported", f"--check-session is on, the read-back is honest, probes of {sid:#x} do not disturb the session, "
                          f"yet it is reported under session {key:#x} where the ECU does not implement it",
-                         {"cfg": head, "sid": sid, "session": key, "drop_sids": sorted(ecu.drop_sids)}, impl=sorted(got), spec_violated=True,
+                         {**_rec(head), "cfg": head, "sid": sid, "session": key, "drop_sids": sorted(ecu.drop_sids)}, impl=sorted(got), spec_violated=True,
                          site="ServicesScanner.perform_scan / ECU.check_and_set_session")
             return
     # the first probe of every service id follows a read-back that confirmed the session
@@ -1053,7 +1213,7 @@ def _svc_checked_spec(ctx, ecu, sessions, skip, check, rid, r, head):
             if before != key and key not in ecu.f186_unreadable and (prev is None or prev[1] == b"\x22\xf1\x86"):
                 ctx.disagree("svc:first-probe-outside-claimed-session", f"--check-session is on, yet the first probe `{pdu.hex()}` of the scan of session {key:#x} "
                              f"reached the ECU in session {before:#x}",
-                             {"cfg": head, "session": key, "request": pdu.hex()}, impl=before, model=key, spec_violated=True,
+                             {**_rec(head), "cfg": head, "session": key, "request": pdu.hex()}, impl=before, model=key, spec_violated=True,
                              site="ECU.check_and_set_session")
                 return
         prev = (before, pdu, reply)
@@ -1076,7 +1236,7 @@ def _id_checked_spec(ctx, ecu, service, r, head):
             continue
         if pdu[0] == service and pdu != b"\x22\xf1\x86" and key not in (None, 1) and before != key:
             ctx.disagree("id:probe-outside-claimed-session", f"--check-session 1 is on, yet `{pdu.hex()}` of the scan of session {key:#x} reached the ECU in session {before:#x}",
-                         {"cfg": head, "session": key, "request": pdu.hex()}, impl=before, model=key, spec_violated=True,
+                         {**_rec(head), "cfg": head, "session": key, "request": pdu.hex()}, impl=before, model=key, spec_violated=True,
                          site="ScanIdentifiers.perform_scan / ECU.check_and_set_session")
             return
 
@@ -1090,7 +1250,7 @@ def _id_skip_wire(ctx, service, sessions, skip, r, head):
         if len(pdu) == 2 and pdu[0] == 0x10 and pdu[1] != 0:
             if pdu[1] in skip and skip[pdu[1]] is None and pdu[1] != 1:
                 ctx.disagree("id:skipped-session-requested", f"session {pdu[1]:#x} is skipped as a whole but `{pdu.hex()}` was sent",
-                             {"cfg": head, "request": pdu.hex()}, impl=_reqs(r["wire"])[:400], spec_violated=True,
+                             {**_rec(head), "cfg": head, "request": pdu.hex()}, impl=_reqs(r["wire"])[:400], spec_violated=True,
                              site="ScanIdentifiers.main / Ranges2D (unravel_2d)")
                 return
             if tok.startswith("p"):
@@ -1105,7 +1265,7 @@ def _id_skip_wire(ctx, service, sessions, skip, r, head):
             ident = int.from_bytes(pdu[2:4], "big")
         if ident is not None and (skip[key] is None or ident in skip[key]):
             ctx.disagree("id:skipped-identifier-requested", f"identifier {ident:#x} is skipped in session {key:#x} but `{pdu.hex()}` was sent there",
-                         {"cfg": head, "session": key, "request": pdu.hex()}, impl=_reqs(r["wire"])[:400], spec_violated=True,
+                         {**_rec(head), "cfg": head, "session": key, "request": pdu.hex()}, impl=_reqs(r["wire"])[:400], spec_violated=True,
                          site="ScanIdentifiers.perform_scan / Ranges2D (unravel_2d)")
             return
 
@@ -1123,20 +1283,24 @@ def _id_spec(ctx, service, payload, r, counts, head):
         if total_counted > total_expected:
             ctx.disagree("id:positive-count-exceeds-positive-replies",
                          f"identifier scan counted {total_counted} positive identifiers but the ECU gave only {total_expected} positive replies",
-                         {"cfg": head}, impl=counts, model=total_expected, spec_violated=True, site="ScanIdentifiers.perform_scan")
+                         {**_rec(head), "cfg": head}, impl=counts, model=total_expected, spec_violated=True, site="ScanIdentifiers.perform_scan")
         return
     if total_expected != total_counted:
         ctx.disagree("id:positive-count-differs-from-positive-replies",
                      f"identifier scan counted {total_counted} positive identifiers but the ECU gave {total_expected} positive replies to identifier probes",
-                     {"cfg": head}, impl=counts, model=total_expected, spec_violated=True, site="ScanIdentifiers.perform_scan")
+                     {**_rec(head), "cfg": head}, impl=counts, model=total_expected, spec_violated=True, site="ScanIdentifiers.perform_scan")
 
 
 def _random_server(rng):
     """a real RandomUDSServer plus an ecufn driving it through UDSServerTransport.handle_request"""
+    return _random_server_seeded(rng.randrange(1 << 30))
+
+
+def _random_server_seeded(seed):
     from gallia.services.uds.server import RandomUDSServer, UDSServerTransport
     from gallia.transports.base import TargetURI
 
-    srv = RandomUDSServer(rng.randrange(1 << 30))
+    srv = RandomUDSServer(seed)
     loop = asyncio.new_event_loop()
     try:
         loop.run_until_complete(srv.setup())
@@ -1148,7 +1312,106 @@ def _random_server(rng):
         resp, _t = await tr.handle_request(pdu)
         return resp
 
+    fn.seed = seed
+    fn.srv = srv
     return srv, fn
+
+
+# ------------------------------------------------------------------------------------------------- replay of one recorded case
+
+_CLAUSES = [
+    (("svc:reported-unsupported", "svc:checked-scan-reports-unsupported", "svc:reported-under-session-not-entered", "svc:response-id-reported-unasked"),
+     "the service scan reports in each requested session only services the ECU implements in that session (response ids only when asked)"),
+    (("svc:implemented-service-not-reported", "svc:scan-died", "svc:session-check-failed-on-stable-ecu", "svc:reset-changes-reported-set",
+      "svc:check-session-changes-result", "svc:response-pending-changes-scan", "svc:failed-session-check-exit-status"),
+     "the service scan reports every implemented service that answers any of the probe lengths with something other than a not-supported or length error"),
+    (("svc:probe-outside-claimed-session", "svc:first-probe-outside-claimed-session", "svc:unexpected-request", "svc:unrequested-session-requested",
+      "svc:response-id-probed-unasked", "id:probe-outside-claimed-session"),
+     "it probes every service id 0x00-0xFF (response ids only when asked) exactly in the session it claims"),
+    (("svc:skipped", "id:skipped"), "it leaves out what the skip option names"),
+    (("id:positive-count", "id:scan-died"),
+     "the identifier scan counts as positive exactly the identifiers in the requested range for which the ECU returns a positive response"),
+]
+
+
+def _clause(key):
+    for prefixes, text in _CLAUSES:
+        if key.startswith(prefixes):
+            return text
+    return ""
+
+
+def _P_from_rec(rec):
+    P = {k: v for k, v in rec.items() if k not in ("ecu", "scanner")}
+    P["skip"] = _skip_from_json(P.get("skip") or {})
+    P["skip_arg"] = _skip_from_json(P.get("skip_arg"))
+    P["hooks"] = _hooks_from_json(P.get("hooks"))
+    if rec["scanner"] == "id":
+        P["payload"] = bytes.fromhex(P["payload"]) if P.get("payload") else None
+    return P
+
+
+def _rerun(ctx, rec, tag=""):
+    """rebuild ECU and configuration from a case record, run the real scanner, replay the per-transmission answer script through the model,
+    print both sides, evaluate the property's clauses on the ECU's ground truth -> (run, head, ecu, label)"""
+    fn, ecu, srv = _ecu_from_desc(rec["ecu"])
+    P = _P_from_rec(rec)
+    wild = bool(rec["ecu"].get("wild"))
+    label = P["label"].split(":", 1)[1] if ":" in P["label"] else P["label"]
+    if rec["scanner"] == "svc":
+        r, head, impl = _run_svc(fn, P)
+        counts = None
+    else:
+        r, head, counts, impl = _run_id(fn, P)
+    print(f"config{tag} : {head}   (client max_retry {P['max_retry']}" + (f", --skip given as {P['skip_arg']}" if isinstance(P.get("skip_arg"), list) else "") + ")")
+    print(f"ecu{tag}    : " + _describe_ecu(rec["ecu"])[:1500])
+    if ecu is not None:
+        print(f"           sessions {ecu.sessions}, transitions { {k: sorted(v) for k, v in ecu.trans.items()} }, "
+              f"implemented services per session { {k: [hex(x) for x in sorted(v)] for k, v in ecu.svc.items()} }"[:1500])
+    for p in r["problems"]:
+        ctx.disagree(f"{rec['scanner']}:wire-accounting", "transmissions and exchanges of the real client do not line up: " + p,
+                     {**_rec(head), "cfg": head}, impl=p, spec_violated=False, site="UDSClient.request_unsafe")
+    info = {"kind": rec["scanner"], "cfg": head, "ecu": P["label"], **_rec(head)}
+    mo, = _compare_model(ctx, [(head + " | " + _tokens(r), impl, info)])
+    print(f"impl{tag} : {impl[:1500]}")
+    print(f"           {len(r['wire'])} transmissions; answers per transmission: {_tokens(r)[:600]}")
+    print(f"model{tag}: {mo[:1500]}")
+    if ecu is not None and rec["scanner"] == "svc" and not P["label"].startswith("table:twin"):
+        _svc_verdicts(ctx, ecu, P["sessions"], P["skip"], P["check"], P["rid"], P["reset"], P["hooks"], wild, label, r, head)
+    elif ecu is not None and rec["scanner"] == "id":
+        _id_verdicts(ctx, ecu, P, wild, label, r, counts, head)
+    elif srv is not None and rec["scanner"] == "svc":
+        _svc_rs_verdicts(ctx, srv, P["sessions"], P["rid"], P["reset"], r, head)
+    elif srv is not None and r["outcome"] in ("exit0", "exit1"):
+        _id_spec(ctx, P["service"], None, r, counts, head)
+    return r, head, ecu, label
+
+
+def replay(ctx, payload):
+    """re-run one recorded case: the ECU is rebuilt from the record in the case (generator seed + behaviour switches, or the RandomUDSServer
+    seed), the real scanner is run with the recorded configuration, its per-transmission answer script goes through the Lean model, the
+    property's clauses are evaluated on the ECU's ground truth; metamorphic pairs re-run both members; 1 when something still shows"""
+    from lib import replaylib
+    import sys
+    finding, origin = replaylib.pick(payload)
+    replaylib.header(payload, finding, origin)
+    if finding is None:
+        return int(replaylib.obligations(sys.modules[__name__], payload))
+    setup_repo_import()
+    import gallia.command  # noqa: F401  (import order)
+    case = finding["case"]
+    rec = case.get("replay") or (case.get("info") or {}).get("replay")
+    if rec is None:
+        print("this replay file carries only the configuration head (written before the cases were made self-contained): " + str(case.get("cfg") or case.get("line"))[:400])
+        print("re-run ./check C10 to get a replayable case")
+        return 1
+    r, head, ecu, label = _rerun(ctx, rec)
+    if case.get("replay2"):
+        r2, head2, _e2, _l2 = _rerun(ctx, case["replay2"], tag="2")
+        print(f"pair    : {case.get('pair')}: impl reports {sorted(r['scanner'].result)} ({r['outcome']}, {len(r['wire'])} requests) | "
+              f"impl2 reports {sorted(r2['scanner'].result)} ({r2['outcome']}, {len(r2['wire'])} requests)")
+        _pair_verdict(ctx, case.get("pair"), rec["ecu"].get("set", {}).get("reset_mode", "ok"), label, r, r2, head, head2)
+    return replaylib.verdict(ctx, finding, _clause)
 
 
 MANIFEST = {
